@@ -286,6 +286,9 @@ theorem readerRows_cons_ok {os : Bool} {prev pl pl' : Option Nat} {r : Record} {
         | ok pl1 =>
           rw [hpl] at h
           simp only at h
+          cases hlong : genotypeTooLong r.calls
+          case true => simp only [hlong, if_true] at h; cases h
+          simp only [hlong, Bool.false_eq_true, if_false] at h
           cases hrec : readerRows os (some r.pos) pl1 rs with
           | error e => rw [hrec] at h; cases h
           | ok v =>
